@@ -58,6 +58,10 @@ func runC20(c *Ctx) {
 	checkFileBytesOwned(c, "R20e")
 	c.Rule("R20f", ruleTextNoInPlace, 10)
 	checkNoInPlaceInput(c, "R20f")
+	c.Rule("R20k", ruleTextPreferredSearch, 1)
+	checkPreferredSearch(c, "R20k")
+	c.Rule("R20j", ruleTextTotalOrderOverMapKeys, 1)
+	checkTotalOrderOverMapKeys(c, "R20j")
 	c.Rule("R20h", ruleTextPlannerInputRO, 10)
 	checkPlannerInputReadOnly(c, "R20h")
 	c.Rule("R20i", "the attribute helpers of sql/schema that promise a new slice (functions taking a []T by value and returning a []T) never build the result in the argument's backing array (`in[:0]`, `append(in[:i], …)`): a caller that does not assign the result back (a read-only diff) would otherwise have its schema's attributes overwritten, and a later marshal or plan of the same schema differs", 2)
